@@ -132,6 +132,8 @@ TOKENS = (
     b'9' * 40, b'max-age=', b'max-age=-1', b'max-age=1e3', b'max-age="1"', b'v=', b'v=spf1', b'ip4:', b'ip4:1.2.3.4/33',
     b'ip6:::1/129', b'ip4:::1', b'ip6:1.2.3.4', b'a:/', b'mx://', b'%{', b'%{z}', b'exists:%', b'sha256-', b"'sha256-'",
     b"'nonce-'", b"'sha999-YQ=='", b'http://[', b'http://[::1', b'//', b':', b'::', b'\r\n', b'\r\n\r\n', b'\x00',
+    b'{x}=y', b'{0}', b'{}', b'{{k}}=v', b'%s', b'%(a)s=1', b'a{b=c', b'}', b'\\', b'`x`', b'<b>', b'*x*', b'# h', b'a|b',
+    b'k=\xc3\xa9', b'_=_', b'__class__=1', b'a b=c d',
     b'Mon, 99 Foo 9999 99:99:99 GMT', b'Thu, 01 Jan 1970 00:00:00 +9999', b'99999999999999999999', b'1' + b'0' * 400,
 )
 
